@@ -223,6 +223,21 @@ def shallow_converter_copies(cx: Cx, ob: Ob) -> None:
                 if op(c) == "call" and c[1] in (("ext", "copy.copy"), ("ext", "copy")) and c[2]:
                     tg = o.tag(c[2][0])
                     if tg is not None and tg[0] == "CB":
+                        # a shallow copy on which EVERY table (and the record list) is bound anew shares nothing mutable
+                        rebound = {e2.a[2] for e2, _c2 in o.s.walk() if e2.kind == "store" and op(e2.a) == "attr" and e2.a[1] == c}
+                        need = set(TABLES) | {"records"}
+                        if need <= rebound:
+                            ob.site(f"{where(fn, ev.line)} {fn.qualname}", "shallow copy of the converter with every table and the record list bound anew")
+                            continue
+                        if rebound & need:
+                            ob.violate(
+                                fn.qualname,
+                                where(fn, ev.line),
+                                f"{fn.name} makes a shallow copy of its converter input `{tg[1]}` and binds {sorted(rebound & need)} anew on it, but not {sorted(need - rebound)}: what is not rebound is the SAME object in both converters - it still describes the source's records, and adding to either converter changes the answers of the other",
+                                witness="sub = parent.get_subconverter([...]): sub answers (and remap_* decide) from a table that still knows the parent's other prefixes",
+                                detail="shallow-converter-copy:" + "+".join(sorted(need - rebound)),
+                            )
+                            continue
                         ob.violate(
                             fn.qualname,
                             where(fn, ev.line),
